@@ -55,6 +55,7 @@ func (w *World) remoteAnchors() *remoteAnchors {
 			a.problems = append(a.problems, name)
 		}
 	}
+	aliasRole(a.wInit, "(*remote.streamWriter).init")
 	chk("remote.streamWriter", a.writer != nil)
 	chk("remote.streamReader", a.reader != nil)
 	chk("remote.streamRouter", a.router != nil)
@@ -230,6 +231,11 @@ func checkC15(w *World, r *Report) {
 		}
 		maps[call.Call.Args[0]] = sp.table
 		lookups = append(lookups, call.Call.StaticCallee())
+		if sp.table == "TypeNames" {
+			aliasRole(call.Call.StaticCallee(), "remote.lookupTypeName")
+		} else {
+			aliasRole(call.Call.StaticCallee(), "remote.lookupPIDs")
+		}
 		r.OK("C15.R1", key, what, w.pos(call.Pos()))
 	}
 	// Data is Serialize(delivery's msg)
